@@ -694,6 +694,9 @@ def attributable(case, vclass, finding):
     that class is explained by exactly its trigger."""
     if finding['id'] != 'C20-cross-class-dotted-prefix':
         return False
+    io = vclass.startswith('IO-')       # the same classes when found under a (survived) injected fault
+    if io:
+        vclass = vclass[3:]
     if vclass not in ('CL-macro-not-classified-in-full', 'CL-instruction-not-classified-in-full',
                       'CL-register-not-classified-in-full',
                       'CL-macro-after-another-operation-not-classified-in-full',
